@@ -13,6 +13,13 @@ func newBitPattern(pattern string) *bitPattern {
 
 // Bit returns a given bit by its position (position starts from one).
 func (b *bitPattern) Bit(pos int) byte {
+	if pos > lenPos {
+		if pos-lenPos <= len(b.bits) {
+			return '1'
+		}
+		return '0'
+	}
+
 	if pos > b.len {
 		return '0'
 	}
